@@ -234,6 +234,26 @@ Proof.
   exact (fun k a m H => conj (topk_R_length k a m H) (topk_merge_create_eq k a m H)).
 Qed.
 
+(* merging with a fresh accumulator returns the very same accumulator (not merely the same
+   output) for Count, Sum, Min, Max, the Distinct sets; for AverageF64 the same count and the same
+   rational sum *)
+Theorem c06_merge_with_fresh_is_identity :
+  (forall V a, c_merge (count_combiner V) a (c_create (count_combiner V)) = a /\
+               c_merge (count_combiner V) (c_create (count_combiner V)) a = a) /\
+  (forall a, c_merge sum_combiner a (c_create sum_combiner) = a /\
+             c_merge sum_combiner (c_create sum_combiner) a = a) /\
+  (forall a, c_merge min_combiner a (c_create min_combiner) = a /\
+             c_merge min_combiner (c_create min_combiner) a = a) /\
+  (forall a, c_merge max_combiner a (c_create max_combiner) = a /\
+             c_merge max_combiner (c_create max_combiner) a = a) /\
+  (forall a, let r := c_merge average_combiner a (c_create average_combiner) in
+             let l := c_merge average_combiner (c_create average_combiner) a in
+             (fst r == fst a)%Q /\ snd r = snd a /\ (fst l == fst a)%Q /\ snd l = snd a) /\
+  (forall T (eqb : T -> T -> bool) a,
+      c_merge (distinct_set_combiner eqb) a (c_create (distinct_set_combiner eqb)) = a /\
+      c_merge (distinct_set_combiner eqb) (c_create (distinct_set_combiner eqb)) a = a).
+Proof. exact identity_exact. Qed.
+
 (* ================= 4. KMV sketch: mergeability only (estimator and hash: C15) ================= *)
 
 (* for any rank function, any estimator computed from (set.len(), heap.peek()) and any k >= 1
